@@ -12,10 +12,25 @@ references, sofa references; any graph shape, any number of views, astral text),
 * yields the same views: same names, sofa ids, sofaNums, texts, mime types, and the same member ids,
 * and reseeds the id generators above everything (C09Doc).
 
+A second theorem (`xmi_roundtrip_flat_fixpoint`): serialising the loaded CAS again gives the identical document.
+
+Hypotheses (all are facts about the *input*: the CAS that is written, its heap, the type system):
+* `RTWf c hp` — what `Cas(...)`/`create_view`/the sofa setter establish (first view = initial view, distinct names and
+  sofa ids, text sofas with the converter of their text, scalar code points, ids positive and below the generator);
+* `NullOk ts` — `uima.cas.NULL` is registered and has no features (the document starts with a `cas:NULL` element, which
+  the reader parses like any structure: without the type, loading raises `TypeNotFoundError`);
+* `FlatFs` for every collected structure (`Spec/RoundTrip.lean`);
+* `hdis` — structure ids differ from sofa ids (not needed by the proofs; kept since it holds for every CAS built through the API);
+* `hmem` — an indexed structure does not have `sofa = None` (`Cas.add` would set it, and the document cannot say so);
+* `MembersOk` — the indexed structures can be indexed again (sort keys exist; no `None`/integer offset mix within one
+  type of one view: `Cas.add` raises `TypeError` otherwise).
+The third conjunct reads `0 :: ids`: the reader registers the `cas:NULL` element under id 0 like any other structure.
+
 Not covered by this theorem (kept as per-run checks): array and list features, inlined or shared; byte-array
 sofas; the byte level (lxml).  The statement is about the models; their tie to `/repo` is the correspondence check.
 -/
 import CassisModel.Proofs.RoundTrip
+import CassisModel.Proofs.RoundTripDemo
 
 namespace Cassis.Xmi
 open Cassis.TS Cassis.Traverse
@@ -23,16 +38,18 @@ open Cassis.TS Cassis.Traverse
 /-- **XMI round trip on the flat fragment** -/
 theorem xmi_roundtrip_flat (K : Consts) (ts : TypeSystem) (cass : List Cas) (ci : Nat) (c : Cas) (hp : Heap)
     (tsIdx ci' : Nat) (doc : XDoc) (st : St)
-    (hc : cass[ci]? = some c) (hwf : RTWf c hp)
+    (hc : cass[ci]? = some c) (hwf : RTWf c hp) (hnull : NullOk ts)
     (hsave : saveXmi K ts cass ci hp = .ok (doc, st))
     (hflat : ∀ q ∈ st.allFs, FlatFs K ts c ci st.heap q.2)
     (hdis : ∀ q ∈ st.allFs, ∀ nv ∈ c.views, q.1 ≠ nv.2.sofa.xid)
-    (hmem : ∀ nv ∈ c.views, ∀ e ∈ Index.all nv.2.idx, slot st.heap e.oid "sofa" ≠ some .none) :
+    (hmem : ∀ nv ∈ c.views, ∀ e ∈ Index.all nv.2.idx, slot st.heap e.oid "sofa" ≠ some .none)
+    (hmok : MembersOk c st.heap) :
     ∃ (p : Pass1) (ld : Loaded),
       pass1 K ts tsIdx false doc { heap := st.heap } = .ok p ∧
       loadXmi K ts tsIdx ci' false st.heap doc = .ok ld ∧
-      -- the same structures under the same ids
-      p.fss.map (·.1) = (sortById st.allFs).map (·.1) ∧
+      -- the same structures under the same ids (id 0 is the `cas:NULL` element every document starts with; the
+      -- reader registers it like any other structure)
+      p.fss.map (·.1) = 0 :: (sortById st.allFs).map (·.1) ∧
       (∀ q ∈ st.allFs, ∃ (a' : Nat) (o o' : Obj), lookupFs p.fss q.1 = .ok a' ∧
           st.heap[q.2]? = some o ∧ ld.heap[a']? = some o' ∧ o'.ty = o.ty ∧ o'.xid = some q.1 ∧
           -- with the same content of every feature
@@ -42,18 +59,61 @@ theorem xmi_roundtrip_flat (K : Consts) (ts : TypeSystem) (cass : List Cas) (ci 
       ld.cas.views.map (viewContent ld.heap) = c.views.map (viewContent st.heap) ∧
       -- generators reseeded
       (∀ q ∈ st.allFs, q.1 < ld.cas.nextXid) ∧ (∀ nv ∈ c.views, nv.2.sofa.xid < ld.cas.nextXid ∧ nv.2.sofa.sofaNum < ld.cas.nextSofaNum) :=
-  xmi_roundtrip_flat_aux K ts cass ci c hp tsIdx ci' doc st hc hwf hsave hflat hdis hmem
+  xmi_roundtrip_flat_aux K ts cass ci c hp tsIdx ci' doc st hc hwf hnull hsave hflat hdis hmem hmok
 
 /-- serialising the loaded CAS again yields the identical document -/
 theorem xmi_roundtrip_flat_fixpoint (K : Consts) (ts : TypeSystem) (cass : List Cas) (ci : Nat) (c : Cas) (hp : Heap)
     (tsIdx : Nat) (doc : XDoc) (st : St) (ld : Loaded)
-    (hc : cass[ci]? = some c) (hwf : RTWf c hp)
+    (hc : cass[ci]? = some c) (hwf : RTWf c hp) (hnull : NullOk ts)
     (hsave : saveXmi K ts cass ci hp = .ok (doc, st))
     (hflat : ∀ q ∈ st.allFs, FlatFs K ts c ci st.heap q.2)
     (hdis : ∀ q ∈ st.allFs, ∀ nv ∈ c.views, q.1 ≠ nv.2.sofa.xid)
     (hmem : ∀ nv ∈ c.views, ∀ e ∈ Index.all nv.2.idx, slot st.heap e.oid "sofa" ≠ some .none)
+    (hmok : MembersOk c st.heap)
     (hload : loadXmi K ts tsIdx cass.length false st.heap doc = .ok ld) :
     ∃ st' : St, saveXmi K ts (cass ++ [ld.cas]) cass.length ld.heap = .ok (doc, st') :=
-  xmi_roundtrip_flat_fixpoint_aux K ts cass ci c hp tsIdx doc st ld hc hwf hsave hflat hdis hmem hload
+  xmi_roundtrip_flat_fixpoint_aux K ts cass ci c hp tsIdx doc st ld hc hwf hnull hsave hflat hdis hmem hmok hload
+
+/-! ### Non-vacuity
+
+The instance of `Proofs/RoundTripDemo.lean`: `Gen.builtinTS` extended (through `createType`/`createFeature`) by the
+annotation type `x.Tok` with an Integer feature `n` and a reference feature `next`; one CAS built by `Cas.new` with the
+text `a😀b` (an astral code point); two `x.Tok` structures referring to each other, the first one indexed through
+`Cas.add`.  All hypotheses of `xmi_roundtrip_flat` hold for it (`Demo.demo_hyps`; `FlatFs` through a Boolean checker
+proved sound and evaluated by the kernel), so the theorem applies; `Demo.demo_concl`/`Demo.demo_loaded` additionally
+evaluate the conclusion on the instance (e.g. `end="3"` in the document is read back as the code-point offset 2). -/
+
+example : ∃ (doc : XDoc) (st : St),
+    saveXmi Demo.K Demo.demoTS [Demo.demo.1] 0 Demo.demo.2 = .ok (doc, st) ∧
+    [Demo.demo.1][0]? = some Demo.demo.1 ∧ RTWf Demo.demo.1 Demo.demo.2 ∧ NullOk Demo.demoTS ∧
+    (∀ q ∈ st.allFs, FlatFs Demo.K Demo.demoTS Demo.demo.1 0 st.heap q.2) ∧
+    (∀ q ∈ st.allFs, ∀ nv ∈ Demo.demo.1.views, q.1 ≠ nv.2.sofa.xid) ∧
+    (∀ nv ∈ Demo.demo.1.views, ∀ e ∈ Index.all nv.2.idx, slot st.heap e.oid "sofa" ≠ some .none) ∧
+    MembersOk Demo.demo.1 st.heap := Demo.demo_hyps
+
+/-- the theorem applied to the instance -/
+example : ∃ (doc : XDoc) (st : St) (ld : Loaded),
+    saveXmi Demo.K Demo.demoTS [Demo.demo.1] 0 Demo.demo.2 = .ok (doc, st) ∧
+    loadXmi Demo.K Demo.demoTS 0 1 false st.heap doc = .ok ld ∧
+    ld.cas.views.map (viewContent ld.heap) = Demo.demo.1.views.map (viewContent st.heap) := by
+  obtain ⟨doc, st, hs, hc, hwf, hn, hf, hd, hm, hmo⟩ := Demo.demo_hyps
+  obtain ⟨_, ld, _, hl, _, _, hv, _⟩ :=
+    xmi_roundtrip_flat Demo.K Demo.demoTS [Demo.demo.1] 0 Demo.demo.1 Demo.demo.2 0 1 doc st hc hwf hn hs hf hd hm hmo
+  exact ⟨doc, st, ld, hs, hl, hv⟩
+
+/-- … and the fixpoint theorem applied to the instance: saving what was loaded gives the same document -/
+example : ∃ (doc : XDoc) (st st' : St) (ld : Loaded),
+    saveXmi Demo.K Demo.demoTS [Demo.demo.1] 0 Demo.demo.2 = .ok (doc, st) ∧
+    loadXmi Demo.K Demo.demoTS 0 1 false st.heap doc = .ok ld ∧
+    saveXmi Demo.K Demo.demoTS ([Demo.demo.1] ++ [ld.cas]) 1 ld.heap = .ok (doc, st') := by
+  obtain ⟨doc, st, hs, hc, hwf, hn, hf, hd, hm, hmo⟩ := Demo.demo_hyps
+  obtain ⟨_, ld, _, hl, _⟩ :=
+    xmi_roundtrip_flat Demo.K Demo.demoTS [Demo.demo.1] 0 Demo.demo.1 Demo.demo.2 0 1 doc st hc hwf hn hs hf hd hm hmo
+  obtain ⟨st', hs'⟩ :=
+    xmi_roundtrip_flat_fixpoint Demo.K Demo.demoTS [Demo.demo.1] 0 Demo.demo.1 Demo.demo.2 0 doc st ld hc hwf hn hs hf hd hm hmo hl
+  exact ⟨doc, st, st', ld, hs, hl, hs'⟩
+
+#print axioms xmi_roundtrip_flat
+#print axioms xmi_roundtrip_flat_fixpoint
 
 end Cassis.Xmi
